@@ -727,6 +727,7 @@ def match_model(ctx, pattern, s, label):
             ctx.assume(z3.InRe(piece, z3.Concat(*ls) if len(ls) > 1 else ls[0]))
         if g is not None:
             groups[g] = piece
+            ctx.ghost.setdefault("atoms", {})[piece.get_id()] = run
         pieces.append(piece)
         i = j
     matched = z3.Concat(*pieces) if len(pieces) > 1 else (pieces[0] if pieces else z3.StringVal(""))
@@ -985,16 +986,28 @@ def float_model(ctx, args, kwargs):
         return Rec("float", attrs={"val": z3.ToReal(x)})
     if not (is_z3(x) and x.sort() == S):
         raise Unsupported("float() of this value")
-    ok = z3.If(z3.InRe(x, FLOAT_CHARS), z3.InRe(x, FLOAT_PLAIN), float_txt_ok(x))
+    # what the text can look like is narrowed on the concrete character classes of the group it comes from (fewer forks, no solver needed)
+    run = ctx.ghost.get("atoms", {}).get(x.get_id())
+    chars = set().union(*[a[0].chars for a in run]) if run and not any(a[0].neg for a in run) else None
+    digits = set("0123456789")
+    nonempty = bool(run) and sum(a[1] for a in run) >= 1
+    if chars is not None and nonempty and chars <= digits:
+        shapes, ok = ["int"], True                                     # [0-9]+
+    elif chars is not None and chars <= digits | {"-"}:
+        shapes, ok = ["int"], z3.InRe(x, INT_TXT)                      # over [-0-9]: a float literal iff -?[0-9]+
+    elif chars is not None and chars <= digits | {".", "+"} and run[0][1] >= 1 and run[0][0].chars <= digits:
+        shapes, ok = ["int", "frac"], z3.InRe(x, z3.Concat(DIGITS, z3.Option(z3.Concat(z3.Re("."), DIGITS0))))   # starts with a digit, over [0-9.+]
+    else:
+        shapes, ok = ["int", "frac", "other"], z3.If(z3.InRe(x, FLOAT_CHARS), z3.InRe(x, FLOAT_PLAIN), float_txt_ok(x))
     if not _fork(ctx, ok, "float(str)-ok"):
         _raise("ValueError", "float(str)")
     r = ctx.fresh("float", R)
-    if _fork(ctx, z3.InRe(x, INT_TXT), "float-of-an-integer-text"):
+    if shapes == ["int"] or _fork(ctx, z3.InRe(x, INT_TXT), "float-of-an-integer-text"):
         v = z3.ToReal(int_of_txt(x))
         ctx.assume(z3.Implies(_abs(v) <= TWO53, r == v))
         ctx.assume(_abs(r - v) * TWO53 <= _abs(v))
         ctx.ghost.setdefault("floats", []).append((x, "int", None, None, r))
-    elif _fork(ctx, z3.InRe(x, z3.Concat(DIGITS, z3.Re("."), DIGITS0)), "float-of-DIGITS.DIGITS"):
+    elif shapes == ["int", "frac"] or _fork(ctx, z3.InRe(x, z3.Concat(DIGITS, z3.Re("."), DIGITS0)), "float-of-DIGITS.DIGITS"):
         a, b = ctx.fresh("float.int-part", S), ctx.fresh("float.fraction", S)
         ctx.assume(z3.And(x == z3.Concat(a, z3.StringVal("."), b), z3.InRe(a, DIGITS), z3.InRe(b, DIGITS0)))
         ctx.assume(z3.Not(z3.Contains(a, z3.StringVal("."))))   # (digits only)
@@ -1053,6 +1066,7 @@ def td_setup(ctx):
         ctx.oblige("lemma", f"a-text-in-{nm}-holds-no-{word}", z3.Implies(z3.InRe(x0, lang), z3.Not(z3.Contains(x0, p(ch)))), strings=True)
     D, H, M, Sx, Ux = int_of_txt(sd), z3.StrToInt(sh), z3.StrToInt(sm), z3.StrToInt(ss), z3.StrToInt(su)
     want = None
+    ctx.ghost["no-prune"] = True   # (the solvers decide which paths are possible, in parallel, when the obligations are discharged)
     if kind == "not a string":
         value = [z3.Int("value"), None, z3.Bool("value")][ctx.choose(3, "non-string")]
     elif kind == "any string":
